@@ -1,13 +1,13 @@
 #!/bin/bash
 # Runs every seeded change against the check of its property (quick tier; meta.json "checked_by" names further checks to run) and
 # writes seeded/MATRIX.md.  Each change is applied to a scratch worktree of /repo HEAD (tools/try_mutant_par.sh); /repo is not touched.
+# MATRIX_JOBS=n runs n changes at a time.
 cd "$(dirname "$0")/.."
 out=seeded/MATRIX.md
-echo "| seeded change | property | what it needs to manifest | check result (quick tier) |" > $out
-echo "|---|---|---|---|" >> $out
-for d in seeded/*/; do
-  m=$(basename $d); p=${m%%-*}
-  [ -f $d/meta.json ] || continue
+rows=$(mktemp -d /tmp/matrix-rows-XXXXXX)
+one() {
+  d=$1; m=$(basename $d); p=${m%%-*}
+  [ -f $d/meta.json ] || return
   needs=$(python3 -c "import json,sys;d=json.load(open('$d/meta.json'));print((d.get('status_on_current_tree') or d.get('needs','')).replace('|','/').replace('\n',' ')[:260])")
   if python3 -c "import json,sys;sys.exit(0 if 'status_on_current_tree' in json.load(open('$d/meta.json')) else 1)"; then
     res="not applicable to the current tree (superseded by a fix)"
@@ -20,7 +20,12 @@ for d in seeded/*/; do
     note=$(python3 -c "import json;print(json.load(open('$d/meta.json')).get('matrix_note','').replace('|','/'))")
     [ -n "$note" ] && res="$res $note"
   fi
-  echo "| $m | $p | $needs | $res |" >> $out
+  echo "| $m | $p | $needs | $res |" > $2/$m.row
   echo "$m $res"
-done
-rm -rf replays
+}
+export -f one
+ls -d seeded/*/ | xargs -P ${MATRIX_JOBS:-1} -I{} bash -c 'one {} '$rows
+echo "| seeded change | property | what it needs to manifest | check result (quick tier) |" > $out
+echo "|---|---|---|---|" >> $out
+cat $(ls $rows/*.row | sort) >> $out
+rm -rf $rows replays
